@@ -20,7 +20,9 @@ class Prop(G.InputPropBase):
             "representative item (all kinds, introducers, parameter shapes; thorough: every single-item case of C05) "
             "split at every position incl. the empty first/last delivery, byte-wise and whole; every (canonical prefix, "
             "byte) transition delivered as prefix | byte | suffix.  Random: well-formed item streams, malformed streams, "
-            "UTF-8 text and mixtures under two random partitions (empty deliveries included), byte-wise and whole.  "
+            "UTF-8 text and mixtures under two random partitions (empty deliveries included), byte-wise and whole; single "
+            "deliveries completing 1023..5000 (thorough 70000) tokens; one terminal receiving 6-60 short deliveries drawn with "
+            "repeats from a small vocabulary of near-identical byte strings (NUL padding, one byte more or less).  "
             "Non-trivial: at least two runs that differ as partitions; distinct by line text.  The oracle compares the "
             "REAL token concatenation of every run with the real one-chunk run and requires one callback per delivery.")
     ASSUMPTIONS = ["a delivery is one invocation of the function the terminal passed to channel.async_read"]
@@ -95,6 +97,29 @@ class Prop(G.InputPropBase):
             runs = [G.chunkings(rng, data, "random"), G.chunkings(rng, data, "random"), G.chunkings(rng, data, "bytes"),
                     G.chunkings(rng, data, "whole")]
             cs.append(Case("I " + " / ".join(runs), cfgs=["C06"], tag=tag))
+        # single deliveries that complete very many tokens (a paste): 1 callback per delivery however many tokens
+        big = [b"a" * n for n in (1023, 1024, 1025, 2048, 5000)]
+        big.append((b"\x1b[A" + b"b" + b"\r\n") * 700)
+        big.append(b"".join(G.item_bytes(it) for it in G.random_items(rng, 1500)))
+        if tier == "thorough":
+            big += [b"a" * 70000, b"".join(G.item_bytes(it) for it in G.random_items(rng, 20000))]
+        for data in big:
+            mid = len(data) // 2
+            runs = [G.hx(data), G.hx(data[:mid]) + "," + G.hx(data[mid:]), G.hx(data[:1]) + "," + G.hx(data[1:]),
+                    G.hx(data[:-1]) + ",-," + G.hx(data[-1:]), G.chunkings(rng, data, "random")]
+            if len(data) <= 1100:
+                runs.append(G.chunkings(rng, data, "bytes"))
+            cs.append(Case("I " + " / ".join(runs), cfgs=["C06"], sweep="large-deliveries", tag="large-delivery"))
+        # the same terminal receives MANY short deliveries drawn (with repeats) from a small vocabulary of byte strings
+        # that differ in little (NUL padding, one byte more or less): what a per-terminal cache keyed on the delivery confuses
+        for i in range(400 if tier == "quick" else 8000):
+            base = rng.choice([b"\x1b[A", b"a", b"\x1bOP", b"\r", b"\x1b[5~", b"\x9bB", b"\x00", b"ab", b"\x1b[1;5C"])
+            vocab = {base, b"\x00" + base, b"\x00\x00" + base, base + b"\x00", base + base[-1:], base[:-1] or b"\x00",
+                     b"\x00" * rng.randrange(1, 6), rng.choice([b"a", b"\x1b", b"[", b"A", b"\n"])}
+            vocab = sorted(vocab)
+            picks = [rng.choice(vocab) for _ in range(rng.choice([6, 12, 25, 60]))]
+            data = b"".join(picks)
+            cs.append(Case("I " + ",".join(G.hx(c) for c in picks) + " / " + G.hx(data), cfgs=["C06"], tag="repeated-short-deliveries"))
         # deliveries that carry nothing at all
         cs.append(Case("I -,-,- / -", cfgs=["C06"], sweep="empty-deliveries", tag="empty"))
         cs.append(Case("I -,1b,-,5b,-,41,- / 1b5b41", cfgs=["C06"], sweep="empty-deliveries", tag="empty"))
